@@ -21,7 +21,14 @@ func TestC04(t *testing.T) {
 		"(DereferenceError if empty / other type); both engines; non-trivial = target depth>=2 or reached through a container; distinct by (shape,holder,route,target,relation,reloc,use)")
 	var total, rejected atomic.Int64
 	rapid.Check(t, func(rt *rapid.T) {
-		c := resgen.GenRefCase(resgen.FromRapid(rt))
+		src := resgen.FromRapid(rt)
+		var c *resgen.RefCase
+		if src.Intn(4) == 0 {
+			// a function value bound through a reference now, called after the relocation/replacement
+			c = resgen.GenBoundCase(src)
+		} else {
+			c = resgen.GenRefCase(src)
+		}
 		total.Add(1)
 		if !checkC04(rt, rec, c) {
 			rejected.Add(1)
@@ -87,6 +94,9 @@ func checkC04(rt fataler, rec *evid.Rec, c *resgen.RefCase) bool {
 	rec.Class("relation:" + c.Relation)
 	rec.Class("reloc:" + c.Reloc)
 	rec.Class("use:" + c.Use)
+	if c.Route == "bound-function" || c.Route == "direct-call" {
+		rec.Class(c.Route + ":" + c.Holder + ":" + c.Reloc)
+	}
 	if c.DoubleOptional {
 		rec.Class("behind-double-optional")
 		if c.Invalid && (c.Relation == "ancestor" || c.Relation == "self") {
